@@ -19,6 +19,12 @@ CAND = ('[angular |-> {"Degree", "Radian", "MOA", "Mil"}, distance |-> {"Yard", 
         'temperature |-> {"Fahrenheit", "Celsius", "Kelvin"}, weight |-> {"Grain", "Gram", "Pound"}, energy |-> {"FootPound", "Joule"}]')
 
 
+DIM_OF_SLOT = {"angular": "angular", "adjustment": "angular", "distance": "distance", "diameter": "distance", "length": "distance",
+               "drop": "distance", "sight_height": "distance", "target_height": "distance", "twist": "distance",
+               "velocity": "velocity", "pressure": "pressure", "temperature": "temperature", "weight": "weight", "ogw": "weight",
+               "energy": "energy"}
+
+
 def q_fp(q):
     return (float(q.raw_value).hex(), int(q.units)) if hasattr(q, "raw_value") else repr(q)
 
@@ -136,21 +142,33 @@ def magnitudes(param, zero_ok):
     return out
 
 
-def corpus_fp(m):
-    """fingerprint of the PHYSICAL results (raw magnitudes only: the unit a result is displayed in is the preferences' business)"""
+def corpus_fp(m, tick=None):
+    """fingerprint of the PHYSICAL results (raw magnitudes only: the unit a result is displayed in is the preferences' business).
+    tick() is called between the constructions and computations: the interleaved mode changes the preferences there, so that
+    the objects of one computation are built under DIFFERENT preference states (the statement quantifies over the settings,
+    not over one setting held fixed for the whole session)"""
     U = m.Unit
+    tick = tick or (lambda: None)
     h = hashlib.sha256()
     q_fp = lambda q: float(q.raw_value).hex()
 
     def add(x):
         h.update(repr(x).encode())
-    dm = m.DragModel(0.25, m.TableG7, U.Grain(168), U.Inch(0.308), U.Inch(1.22))
-    weapon = m.Weapon(U.Inch(2.5), U.Inch(11), sight=m.Sight("SFP", U.Yard(100), U.Mil(0.1), U.MOA(0.25)))
-    ammo = m.Ammo(dm, U.MPS(800), U.Celsius(15), 0.011, True)
-    atmo = m.Atmo(U.Meter(300), U.hPa(980), U.Celsius(5), 40, U.Celsius(-3))
-    shot = m.Shot(weapon, ammo, U.Degree(3), U.Mil(0.5), U.Degree(2), atmo,
-                  [m.Wind(U.MPS(4), U.OClock(3), U.Meter(200)), m.Wind(U.KMH(10), U.Degree(200), U.Yard(600))])
-    calc = m.Calculator(_config={"max_calc_step_size_feet": 3.0})
+        tick()
+    dm = m.DragModel(0.25, m.TableG7, U.Grain(168), U.Inch(0.308), U.Inch(1.22)); tick()
+    sight = m.Sight("SFP", U.Yard(100), U.Mil(0.1), U.MOA(0.25)); tick()
+    weapon = m.Weapon(U.Inch(2.5), U.Inch(11), sight=sight); tick()
+    ammo = m.Ammo(dm, U.MPS(800), U.Celsius(15), 0.011, True); tick()
+    atmo = m.Atmo(U.Meter(300), U.hPa(980), U.Celsius(5), 40, U.Celsius(-3)); tick()
+    # four segments whose ends lie within a few percent of each other (and out of order): ordering them by anything but the
+    # physical distance - the number in whatever unit each happens to be displayed in - reverses some pair
+    winds = []
+    for v, d, until in ((U.MPS(4), U.OClock(3), U.Meter(200)), (U.KMH(10), U.Degree(200), U.Yard(600)),
+                        (U.MPH(7), U.Degree(70), U.Foot(690)), (U.FPS(12), U.Degree(300), U.Yard(225))):
+        winds.append(m.Wind(v, d, until)); tick()
+    shot = m.Shot(weapon, ammo, U.Degree(3), U.Mil(0.5), U.Degree(2), atmo, winds); tick()
+    add([float(w.until_distance.raw_value).hex() for w in shot.winds])
+    calc = m.Calculator(_config={"max_calc_step_size_feet": 3.0}); tick()
     add(q_fp(calc.set_weapon_zero(shot, U.Meter(100))))
     add(q_fp(calc.barrel_elevation_for_target(shot, U.Yard(250))))
     hr_extra = None
@@ -165,14 +183,19 @@ def corpus_fp(m):
     clicks = weapon.sight.get_trajectory_adjustment(row, 12.0)
     add((float(clicks.vertical).hex(), float(clicks.horizontal).hex()))
     add(q_fp(ammo.get_velocity_for_temp(U.Fahrenheit(10))))
-    mbc = m.DragModelMultiBC([m.BCPoint(0.275, V=U.MPS(800)), m.BCPoint(0.255, V=U.FPS(1700))], m.TableG7, U.Gram(11), U.Millimeter(7.8), U.Millimeter(31))
+    pts = []
+    for bc, v in ((0.275, U.MPS(800)), (0.255, U.FPS(1700)), (0.265, U.KMH(2300))):
+        pts.append(m.BCPoint(bc, V=v)); tick()
+    mbc = m.DragModelMultiBC(pts, m.TableG7, U.Gram(11), U.Millimeter(7.8), U.Millimeter(31))
     add([(float(p.Mach).hex(), float(p.CD).hex()) for p in mbc.drag_table] + [float(mbc.BC).hex()])
     add(q_fp(m.Atmo.icao(U.Meter(1500)).pressure))
     # every field of every object built from explicit quantities (raw magnitudes), and a shot fired with the multi-BC model
     for o in (dm, mbc, weapon, ammo, atmo, shot, weapon.sight):
         add(impl.deep_fp(o))
-    shot2 = m.Shot(m.Weapon(U.Centimeter(6), U.Centimeter(25)), m.Ammo(mbc, U.MPS(790)), U.Degree(0), atmo=atmo,
-                   winds=[m.Wind(U.MPS(3), U.Degree(90), U.Meter(400))])
+    w2 = m.Weapon(U.Centimeter(6), U.Centimeter(25)); tick()
+    a2 = m.Ammo(mbc, U.MPS(790)); tick()
+    shot2 = m.Shot(w2, a2, U.Degree(0), atmo=atmo); tick()
+    shot2.winds = [m.Wind(U.MPS(3), U.Degree(90), U.Meter(400)), m.Wind(U.MPS(5), U.Degree(270), U.Yard(430))]; tick()
     add([scen.row_fp(r) for r in calc.fire(shot2, U.Meter(300), U.Meter(100)).trajectory])
     return h.hexdigest()
 
@@ -244,7 +267,23 @@ def run(chk: core.Check, replay=None) -> None:
                 chk.violation("C07.ExplicitComputationRaised", {"source": "corpus"}, {"prefs": final, "exc": o[1], "text": str(o[2])[:200]})
             elif o[1] != base_fp:
                 chk.violation("C07.ResultDependsOnPreferences", {"source": "corpus"}, {"prefs": final})
-            # restore in case the corpus touched globals
+            # the same corpus while the history unfolds: the history's operations are applied one by one BETWEEN the
+            # constructions and computations (cyclically, from the defaults)
+            core.reset_world()
+            tick_n = [0]
+
+            def tick():
+                apply_op(m, b[tick_n[0] % len(b)]["op"], bi + tick_n[0])
+                tick_n[0] += 1
+            o = impl.outcome(corpus_fp, m, tick)
+            chk.count(1, ("corpus-interleaved", bi))
+            chk.stratum("explicit_corpus_interleaved")
+            if o[0] != "ok":
+                chk.violation("C07.ExplicitComputationRaised", {"source": "corpus-interleaved"},
+                              {"history": [e["op"] for e in b], "exc": o[1], "text": str(o[2])[:200]})
+            elif o[1] != base_fp:
+                chk.violation("C07.ResultDependsOnPreferences", {"source": "corpus-interleaved"}, {"history": [e["op"] for e in b]})
+            # restore the history's final state
             for s in slots:
                 setattr(m.PreferredUnits, s, UA.unit_enum(final[s]))
         # ---- (a) bare number == explicit quantity in the slot's current unit, for every parameter
@@ -270,6 +309,36 @@ def run(chk: core.Check, replay=None) -> None:
                     elif ob[0] == "exc" and ob[1] != oe[1]:
                         chk.violation("C07.BareDiffersFromExplicit", key, {"bare_exc": ob[1], "explicit_exc": oe[1]})
         chk.traces += 1
+    # fixed rotations applied between the constructions of the corpus (every history TLC could produce with these operations
+    # is a behaviour of Prefs.tla; these make the interleaved mode independent of the seed): the presets in turn, and each
+    # dimension's candidate units assigned to every slot of that dimension in turn
+    rotations = [[{"a": "LoadPreset", "slot": "", "unit": p_} for p_ in order] + [{"a": "Defaults", "slot": "", "unit": ""}]
+                 for order in (("imperial", "metric", "mixed"), ("metric", "imperial"), ("mixed", "metric", "imperial"))]
+    for shift in range(3):
+        rot = []
+        for k in range(4):
+            for s_ in slots:
+                cands = [c for c in sorted(UA.dims()[DIM_OF_SLOT[s_]])]
+                rot.append({"a": "Assign", "slot": s_, "unit": cands[(k * 5 + shift + len(rot)) % len(cands)]})
+        rotations.append(rot)
+    for ri, rot in enumerate(rotations):
+        core.reset_world()
+        tick_n = [0]
+
+        def tick():
+            # a whole block of assignments (all slots) per tick for the assignment rotations, one operation otherwise
+            blk = len(slots) if rot[0]["a"] == "Assign" else 1
+            for _ in range(blk):
+                apply_op(m, rot[tick_n[0] % len(rot)], 0)
+                tick_n[0] += 1
+        o = impl.outcome(corpus_fp, m, tick)
+        chk.count(1, ("corpus-rotation", ri))
+        chk.stratum("explicit_corpus_rotation")
+        if o[0] != "ok":
+            chk.violation("C07.ExplicitComputationRaised", {"source": "corpus-rotation"}, {"rotation": rot[:8], "exc": o[1], "text": str(o[2])[:200]})
+        elif o[1] != base_fp:
+            chk.violation("C07.ResultDependsOnPreferences", {"source": "corpus-rotation"}, {"rotation": rot[:8]})
+    core.reset_world()
     # presets as transcribed in the spec
     pres = gen.out("PRESETS")[0]
     for name, fn in (("defaults", m.PreferredUnits.defaults), ("imperial", m.loadImperialUnits), ("metric", m.loadMetricUnits), ("mixed", m.loadMixedUnits)):
@@ -282,7 +351,7 @@ def run(chk: core.Check, replay=None) -> None:
     core.reset_world()
     chk.sample({"history": behs[0]})
     chk.sample({"parameter_table_rows": params[:4]})
-    chk.require_strata(["pref_Assign", "pref_Defaults", "pref_LoadPreset", "explicit_corpus", "bare_zero", "bare_nonzero",
+    chk.require_strata(["pref_Assign", "pref_Defaults", "pref_LoadPreset", "explicit_corpus", "explicit_corpus_interleaved", "explicit_corpus_rotation", "bare_zero", "bare_nonzero",
                         "preset_metric", "preset_mixed", "preset_imperial"])
     chk.exhaustive = False
     chk.rule.append("TLC-simulated histories of 5 preference operations (assign by attribute / by name / by Unit, defaults, the three "
